@@ -116,6 +116,9 @@ def ops(ns):
     o["deserializer(Op<-int)"] = lambda: ns["deserializer"](ns["op_from"])
     o["deserializer(Op<-str)"] = lambda: ns["deserializer"](ns["op_from_str"])
     o["reset_deserializers(Op)"] = lambda: ns["reset_deserializers"](ns["Op"])
+    import apischema.cache
+
+    o["cache.set_size(64)"] = lambda: apischema.cache.set_size(64)
     o["deserializer(Lf<-int)"] = lambda: ns["deserializer"](ns["lf_from_int"])
     o["deserializer(Lf<-Tr)"] = lambda: ns["deserializer"](ns["lf_from_tr"])
     o["serializer(Op->int)"] = lambda: ns["serializer"](ns["op_to"])
@@ -193,6 +196,14 @@ class World:
             for k, v in attrs.items():
                 if vars(c).get(k, None) is not v:
                     type.__setattr__(c, k, v)
+        # cache.set_size rebinds the cached functions in their modules: bind the originals back
+        import sys
+
+        import apischema.cache
+
+        for cached in apischema.cache._cached:
+            w = cached.__wrapped__
+            setattr(sys.modules[w.__module__], w.__name__, cached)
         self.clear_caches()
 
     def clear_caches(self):
@@ -209,7 +220,7 @@ OBS = ["deserialize(Q)", "serialize(Q)", "deserialization_schema(Q)", "serializa
 
 def jobs(prop, tier, seed):
     out = []
-    n_ops = 33
+    n_ops = 35
     for first in range(n_ops):
         for obs in OBS:
             if tier == "quick":
